@@ -137,4 +137,9 @@ def holdsFrom : Option Nat → Nat → List (Nat × Nat × Bool) → Bool
 
 def holds (obs : List (Nat × Nat × Bool)) : Bool := holdsFrom none 0 obs
 
+/-- Observations of a connection run: (id, seqNo, content?) per critical section. -/
+def obsFrom : Conn → List (Int × Bool) → List (Nat × Nat × Bool)
+  | _, [] => []
+  | s, (c, f) :: rest => ((nextMsgSeq s c f).2.1, (nextMsgSeq s c f).2.2, f) :: obsFrom (nextMsgSeq s c f).1 rest
+
 end TdModel.C08
